@@ -39,7 +39,9 @@ PROBES = ["append_or_insert_into_unterminated_document", "move_all_occurrences_o
           "insert_beyond_end", "unindexed_set_replaces_all_occurrences",
           "reorder_in_unterminated_document", "failing_op_leaves_document_unchanged", "gc_step",
           "handles_dropped_and_refetched", "step_without_observation",
-          "file_object_dropped_paragraph_kept", "set_through_set_field_methods"]
+          "file_object_dropped_paragraph_kept", "set_through_set_field_methods",
+          "view_without_auto_resolve", "multi_line_value_through_set_field_from_raw_string",
+          "key_object_taken_from_iteration", "same_call_repeated"]
 
 
 def generate(seed, run, tier):
